@@ -54,6 +54,14 @@ def _floaty(x, env, depth=0):
         return f"float literal {x.value!r}"
     if isinstance(x, ast.Name) and x.id in env and depth < 3:
         return _floaty(env[x.id], env, depth + 1)
+    # values that are integers / booleans whatever they are computed from: comparisons, positions of extrema and
+    # matches; an element of an array has the array's type, not that of the index expression
+    if isinstance(x, (ast.Compare, ast.BoolOp)):
+        return None
+    if isinstance(x, ast.Call) and ((isinstance(x.func, ast.Attribute) and x.func.attr in ("argmax", "argmin", "argsort", "nonzero", "searchsorted")) or core.src(x.func) in ("np.where", "np.argmax", "np.argmin", "np.argsort", "np.nonzero", "np.searchsorted", "len", "int")):
+        return None
+    if isinstance(x, ast.Subscript):
+        return _floaty(x.value, env, depth)
     for ch in ast.iter_child_nodes(x):
         r = _floaty(ch, env, depth)
         if r:
